@@ -19,8 +19,10 @@
 (*  ep = "query"  NotifyMsg(query): c1 = query name class (plain or internal     *)
 (*                _serf_ names), c2 = payload class, c3 = filter class, fl = flags *)
 (*  ep = "relay"  NotifyMsg(relay envelope): c1 = body class, c2 = destination   *)
-(*  ep = "resp"   NotifyMsg(query response) while a query is running: c1 =       *)
-(*                payload class, c2 = From class, c3 = id/time match, fl = ack   *)
+(*  ep = "resp"   NotifyMsg(query response) while the node has an OPEN query      *)
+(*                (kind = its context, see RespCtx): c1 = payload class, c2 =     *)
+(*                From class ("dup": the same sender twice), c3 = id/time match,  *)
+(*                fl = ack flag (also on queries that did not ask for acks)       *)
 (*  ep = "merge"  Delegate.MergeRemoteState: push/pull message with deviating    *)
 (*                fields; c1 = prefix class, c2 = Events class, fl = isJoin      *)
 (*  ep = "ping"   pingDelegate.NotifyPingComplete: c1 = payload class, c2 = rtt  *)
@@ -73,9 +75,12 @@ Relay == { Rec("relay", "relay", NoDev, b, d, "-", "-", 0) :
              d \in {"peer", "unknown", "zero", "badip", "self"} }
          \cup { Rec("relay", "relay", NoDev, h, "-", "-", "-", 0) : h \in {"nohdr", "hdrnil", "hdrwrong", "hdrlie", "addrwrong"} }
 
-Resp == { Rec("resp", "resp", NoDev, p, fr, m, g, 0) :
-            p \in {"empty", "nil", "one", "big", "conflictresp", "keyresp"}, fr \in {"peer", "empty", "self", "dup"},
-            m \in {"match", "wrongid", "wrongltime"}, g \in {"none", "ack"} }
+\* kind = the OPEN query of the node the reply is addressed to: issued with / without RequestAck, closed, the key
+\* manager's list-keys in flight, name conflict resolution in flight (replies with no open query: family "msg")
+RespCtx == {"ack", "noack", "closed", "key", "conflict"}
+Resp == { Rec("resp", cx, NoDev, p, fr, m, g, 0) :
+            cx \in RespCtx, p \in {"absent", "empty", "nil", "one", "big", "conflictresp", "keyresp"},
+            fr \in {"peer", "empty", "self", "dup"}, m \in {"match", "wrongid", "wrongltime"}, g \in {"none", "ack"} }
 
 Merge == { Rec("merge", "pushpull", d, "ok", "valid", "-", j, 0) : d \in Devs("pushpull"), j \in {"join", "nojoin"} }
          \cup { Rec("merge", "pushpull", NoDev, p, "valid", "-", "nojoin", 0) : p \in {"emptybuf", "wrongtype", "typeonly", "garbage"} }
